@@ -28,7 +28,7 @@ def refine(r, i):
 
 def density(r, i):
     n = r.choice([2, 3, 4, 5])
-    m = r.randint(2, min(12, 50 // n))
+    m = r.randint(2, min(12, 60 // n))
     return {"n": n, "m": m, "lim": r.choice([20, 50, 120])}
 
 
